@@ -147,11 +147,11 @@ def check(run):
     run.rule("R09.4", "a failed back-propagation stays failed: Tensor.backward clears the graph only on its normal continuation", floor=1)
     run.rule("R09.2", "= R07.4: clear_graph empties _ops of every upstream tensor", floor=4)
     run.rule("R09.3", "the state read by the guard (Tensor._ops) is only emptied by clear_graph and only filled on fresh tensors", floor=3)
-    r09_1(run)
+    run.do(r09_1)
     before = len(run.obligations)
-    c07.r07_4(run)
+    run.do(c07.r07_4)
     for o in run.obligations[before:]:
         o.rule = "R09.2"
-    r09_3(run)
-    r09_1_overrides(run)
-    r09_4(run)
+    run.do(r09_3)
+    run.do(r09_1_overrides)
+    run.do(r09_4)
